@@ -166,14 +166,14 @@ SWINT_WEIGHTS = ["Swin_T_Weights", "Swin_S_Weights", "Swin_B_Weights"]
 
 DATA_BASE = {"train_labels_path": "train.pkg.slp", "val_labels_path": "val.pkg.slp"}
 DATA_VALUES = {
-    "train_labels_path": ["/data/my run:1/train.slp"],
-    "val_labels_path": ["/data/my run:1/val.slp"],
-    "test_file_path": ["test.slp", "/data/my run:1/test.mp4"],
+    "train_labels_path": ["/data/my run:1/train.slp", "./data//train.slp"],
+    "val_labels_path": ["/data/my run:1/val.slp", "data/../val.slp"],
+    "test_file_path": ["test.slp", "/data/my run:1/test.mp4", "./test.slp"],
     "provider": ["VideoReader"],
     "user_instances_only": [False],
     "data_pipeline_fw": ["litdata", "torch_dataset_np_chunks"],
-    "np_chunks_path": ["/tmp/np chunks", "123"],
-    "litdata_chunks_path": ["/tmp/ld_chunks", "null"],
+    "np_chunks_path": ["/tmp/np chunks", "123", "./chunks/"],
+    "litdata_chunks_path": ["/tmp/ld_chunks", "null", "chunks//ld/"],
     "use_existing_chunks": [True],
     "chunk_size": [1, 4096],
     "delete_chunks_after_training": [False],
@@ -206,8 +206,9 @@ TRAINER_VALUES = {
     "seed": [0, 42],
     "use_wandb": [True],
     "save_ckpt": [True],
-    "save_ckpt_path": ["/tmp/ckpt dir", "models"],
-    "resume_ckpt_path": ["/tmp/x/best.ckpt", "last.ckpt"],
+    # path-like strings include forms a path library would rewrite (leading ./, trailing /, doubled //, ..)
+    "save_ckpt_path": ["/tmp/ckpt dir", "models", "./ckpts/", "models//run_1"],
+    "resume_ckpt_path": ["/tmp/x/best.ckpt", "last.ckpt", "./runs/../best.ckpt", "ckpts//last.ckpt"],
     "wandb_entity": ["team-a", "true"],
     "wandb_project": ["proj", "null"],
     "wandb_name": ["run 1", "123"],
@@ -274,8 +275,8 @@ TRAINER_TRIPLE_GROUPS = [
 MODEL_BASE = {"backbone_config": "unet", "head_configs": "centered_instance"}
 MODEL_VALUES = {
     "init_weight": ["xavier"],
-    "pretrained_backbone_weights": ["/m/backbone.ckpt", "best.ckpt"],
-    "pretrained_head_weights": ["/m/head weights.ckpt", "123"],
+    "pretrained_backbone_weights": ["/m/backbone.ckpt", "best.ckpt", "./m//backbone.ckpt"],
+    "pretrained_head_weights": ["/m/head weights.ckpt", "123", "m/../head.ckpt"],
 }
 BACKBONE_FIELD_VALUES = {
     "unet": {
